@@ -90,9 +90,10 @@ package graph
 //@        && (forall v int :: 0 <= v && v < len(info) ==> info[v].OnStack == (old(info[v].OnStack) || v == u))
 //@        && !old(info[u].OnStack)
 //@   loop range g.EdgesFrom(u) #1: invariant[C05:dfs-visited-only-grows] forall v int :: 0 <= v && v < len(info) && old(info[v].Visited) ==> info[v].Visited
-//@   loop range g.EdgesFrom(u) #1: invariant[C05:dfs-writes-only-its-marks] keptExcept(info.arr, elems(cycleNode)) && keptExcept(path0.arr, elems(int))
-//@        && (forall i int :: 0 <= i && i < len(path0) ==> path0[i] == old(path0[i]))
-//@        && (path.arr == path0.arr || fresh(path)) && info.arr != path.arr
+//@   loop range g.EdgesFrom(u) #1: invariant[C05:dfs-path-is-not-the-marks] (path.arr == path0.arr || fresh(path)) && info.arr != path.arr
+//@   loop range g.EdgesFrom(u) #1: invariant[C05:dfs-writes-only-its-marks] keptExcept(info.arr, elems(cycleNode))
+//@   loop range g.EdgesFrom(u) #1: invariant[C05:dfs-writes-only-its-path] keptExcept(path0.arr, elems(int))
+//@   loop range g.EdgesFrom(u) #1: invariant[C05:dfs-keeps-the-callers-path] forall i int :: 0 <= i && i < len(path0) ==> path0[i] == old(path0[i])
 //@   loop for i >= 0 #1: invariant[C05:cycle-start-not-yet-found] 0 - 1 <= i && i < len(path) && cycle == path
 //@        && (forall j int :: i < j && j < len(path) ==> path[j] != v)
 
